@@ -62,7 +62,7 @@ func (p *Program) reservedSet(fn *ssa.Function, depth int) (map[string]bool, boo
 		for i := 0; i < 8; i++ {
 			for _, in := range b.Instrs {
 				if rt, ok := in.(*ssa.Return); ok {
-					for _, o := range p.origins(rt.Results[0], originOpts{}) {
+					for _, o := range p.origins(rt.Results[0], originOpts{local: true}) {
 						if c, ok := o.(*ssa.Const); ok && c.Value != nil && c.Value.String() == "false" {
 							continue
 						}
@@ -115,7 +115,7 @@ func (p *Program) reservedSet(fn *ssa.Function, depth int) (map[string]bool, boo
 		if !ok {
 			return
 		}
-		for _, o := range p.origins(rt.Results[0], originOpts{}) {
+		for _, o := range p.origins(rt.Results[0], originOpts{local: true}) {
 			if c, ok := o.(*ssa.Call); ok {
 				if callee := staticCallee(c); callee != nil && len(c.Call.Args) == 1 && c.Call.Args[0] == ssa.Value(par) {
 					if sub, ok := p.reservedSet(callee, depth+1); ok {
